@@ -142,196 +142,3 @@ Theorem C15_parse_render_ignored_attrs : forall xs,
   Forall (free_of 44) xs -> parse_ignored_attrs (render_ignored_attrs xs) = xs.
 Proof. exact parse_render_ignored_attrs. Qed.
 Print Assumptions C15_parse_render_ignored_attrs.
-
-(* ---------------------------------------------------------------------- *)
-(* C15, --check and the DOCUMENTS.  C15_check leaves two links as hypotheses
-   (diff_formatter_renders, old_formatter_nonempty) and refers to C03 for
-   "documents differ iff the script is non-empty".  Here they are composed, in
-   the model:
-
-   C15_diff_formatter_empty   DiffFormatter (XV.TextFormat.format over the generated tables)
-                              prints the empty text exactly for the empty script;
-   C15_old_formatter_empty    so does the 'old' formatter (XV.OldFormat.old_format, C18's
-                              model) whenever it does not raise: every handler yields at
-                              least one bracketed, non-empty entry -- this is C15_check's
-                              hypothesis old_formatter_nonempty;
-   C15_check_docs             for every argv the parser accepts with --check: let d be the
-                              deciding call (C15_check: made with DiffFormatter or
-                              XmlDiffFormatter on the same files, options and normalize as the
-                              printed one).  Let L, R (with roots and root namespace maps) be
-                              the two documents d's files parse to and o the Differ options --
-                              ANY documents and ANY option record o, in particular the one the
-                              plumbing computes (C15_plumbing) --, script the edit script of
-                              XV.Pipeline.diff_model (Differ.match + Differ.diff, similarity
-                              oracle with the laws "not (F <= 0)", "0 != 1.0"), gs its rendering
-                              as namedtuples (XV.Render), and let the string api d that
-                              diff_files returns be the formatter's model applied to gs (the two
-                              hypotheses: TextFormat.format resp. OldFormat.old_format; they
-                              include that the formatter does not raise).  Then
-                                - exit status 1 iff the script is non-empty, 0 (None) iff empty;
-                                - documents that are NOT equal (doc_equiv: tree_equivb of the two
-                                  documents with the ignored attributes filtered out: tags,
-                                  attribute sets and values, texts, tails, comments, child order)
-                                  give exit status 1;  exit status 0 implies equal documents (C03
-                                  converse);
-                                - equal documents (same_doc_upto, C03/C13's notion: same pre-order
-                                  ids, child lists, tags, texts, tails, non-ignored attributes up to
-                                  order; same roots and namespace maps; C03's oracle laws) give
-                                  exit status 0 (C03 forward, C13).
-   C15_check_iff              hence, on pairs of documents that are either equal in that sense or
-                              not equivalent (everything the front end produces: both trees are
-                              numbered in pre-order and lxml never yields an empty text), the
-                              exit status is 1 iff the documents differ, and 0 iff they are equal
-                              -- for every formatter (-f diff, -f old, -f xml).
-   Proofs: XV.ComposeProofs (check_status_docs, check_status_iff, old_format_empty_iff),
-   XV.CliProofs, XV.PipelineProofs, XV.EqualDocs. *)
-Require Import XV.Forest XV.Matcher XV.Differ XV.Spec XV.WF XV.Path XV.Render XV.OldFormat
-               XV.Pipeline XV.PipelineProofs XV.Compose XV.ComposeProofs.
-From Coq Require Import Arith String.
-Local Close Scope N_scope.
-
-Theorem C15_diff_formatter_empty : forall acts text,
-  format tables acts = Ok text -> (text = [] <-> acts = []).
-Proof. exact diff_text_empty_iff. Qed.
-Print Assumptions C15_diff_formatter_empty.
-
-Theorem C15_old_formatter_empty : forall pe f root nsm gs txt,
-  old_format pe f root nsm gs = OOk txt -> (txt = [] <-> gs = []).
-Proof. exact old_format_empty_iff. Qed.
-Print Assumptions C15_old_formatter_empty.
-
-Theorem C15_check_docs :
-  forall (sim : Type) (sim_ltb sim_leb : sim -> sim -> bool) (sim_is_one : sim -> bool)
-         (zero one : sim) (leaf_sim : str -> str -> sim) (combine : sim -> nat -> nat -> sim)
-         (api : df_call -> str) argv ns c1 c2,
-  parse_args (pctx_of flags cli) (ct_diff_opts cli) argv = PArgs ns ->
-  diff_command_plan flags cli argv = PlanRun c1 true c2 ->
-  let d := decisive c1 c2 in
-  forall (o : mopts sim) (DL DR : forest) (rootL rootR : id) (lns rns : nsmap)
-         (pe : penv) (nsm : list (option str * str)) (script : list iact) (W : forest) (gs : list gaction),
-  sim_leb (oF sim o) zero = false -> sim_is_one zero = false ->
-  wf_forest DL rootL -> wf_forest DR rootR ->
-  diff_model sim sim_ltb sim_leb sim_is_one zero one leaf_sim combine o DL DR rootL rootR lns rns
-    = Some (script, W) ->
-  render_script pe rootL DL script = Some gs ->
-  (call_class d = Some s_DiffFormatter -> format tables gs = Ok (api d)) ->
-  (call_class d = Some s_XmlDiffFormatter -> old_format pe DL rootL nsm gs = OOk (api d)) ->
-  exists res,
-    diff_command_run flags cli api argv = Some res /\
-    cr_stdout res = api c1 ++ [10%N] /\
-    (cr_status res = Some 1%Z <-> script <> []) /\
-    (cr_status res = None <-> script = []) /\
-    (tree_equivb (tree_map_attrs (node_attribs_d (oignored sim o)) (to_tree (S (fnext DL)) DL rootL))
-                 (tree_map_attrs (node_attribs_d (oignored sim o)) (to_tree (S (fnext DR)) DR rootR)) <> true ->
-     cr_status res = Some 1%Z) /\
-    (cr_status res = None ->
-     tree_equivb (tree_map_attrs (node_attribs_d (oignored sim o)) (to_tree (S (fnext DL)) DL rootL))
-                 (tree_map_attrs (node_attribs_d (oignored sim o)) (to_tree (S (fnext DR)) DR rootR)) = true) /\
-    ((forall s, sim_is_one (leaf_sim s s) = true) ->
-     (forall m n, sim_is_one m = true -> 0 < n -> sim_is_one (combine m n n) = true) ->
-     sim_is_one one = true ->
-     (forall x, sim_is_one x = true -> sim_ltb zero x = true) ->
-     (forall x, sim_is_one x = true -> sim_leb (oF sim o) x = true) ->
-     (ofast sim o = true ->
-      forall s t n x n', 0 < n -> sim_leb (oF sim o) (combine (leaf_sim s t) 0 n) = true ->
-                         sim_is_one x = true -> 0 < n' -> sim_leb (oF sim o) (combine x 0 n') = true) ->
-     rootR = rootL -> rns = lns ->
-     (forall k v, In (k, v) lns -> ns_get lns k = Some v) ->
-     (* DR is DL up to ignored attributes and attribute order *)
-     (fnext DL = fnext DR /\
-      (forall n, n < fnext DL -> fkids DL n = fkids DR n) /\
-      (forall n, n < fnext DL ->
-         ltag (flab DL n) = ltag (flab DR n) /\ ltext (flab DL n) = ltext (flab DR n) /\
-         ltail (flab DL n) = ltail (flab DR n) /\
-         Permutation.Permutation (node_attribs_d (oignored sim o) (lattrs (flab DL n)))
-                                 (node_attribs_d (oignored sim o) (lattrs (flab DR n))))) ->
-     cr_status res = None).
-Proof.
-  intros sim sim_ltb sim_leb sim_is_one zero one leaf_sim combine api argv ns c1 c2 Hp Hplan d
-         o DL DR rootL rootR lns rns pe nsm script W gs HF H1.
-  exact (check_status_docs sim sim_ltb sim_leb sim_is_one zero one leaf_sim combine api argv ns c1 c2 Hp Hplan
-           o DL DR rootL rootR lns rns pe nsm script W gs (conj HF H1)).
-Qed.
-Print Assumptions C15_check_docs.
-
-Theorem C15_check_iff :
-  forall (sim : Type) (sim_ltb sim_leb : sim -> sim -> bool) (sim_is_one : sim -> bool)
-         (zero one : sim) (leaf_sim : str -> str -> sim) (combine : sim -> nat -> nat -> sim)
-         (api : df_call -> str) argv ns c1 c2,
-  parse_args (pctx_of flags cli) (ct_diff_opts cli) argv = PArgs ns ->
-  diff_command_plan flags cli argv = PlanRun c1 true c2 ->
-  let d := decisive c1 c2 in
-  forall (o : mopts sim) (DL DR : forest) (root : id) (lns : nsmap)
-         (pe : penv) (nsm : list (option str * str)) (script : list iact) (W : forest) (gs : list gaction),
-  sim_leb (oF sim o) zero = false -> sim_is_one zero = false ->
-  (forall s, sim_is_one (leaf_sim s s) = true) ->
-  (forall m n, sim_is_one m = true -> 0 < n -> sim_is_one (combine m n n) = true) ->
-  sim_is_one one = true ->
-  (forall x, sim_is_one x = true -> sim_ltb zero x = true) ->
-  (forall x, sim_is_one x = true -> sim_leb (oF sim o) x = true) ->
-  (ofast sim o = true ->
-   forall s t n x n', 0 < n -> sim_leb (oF sim o) (combine (leaf_sim s t) 0 n) = true ->
-                      sim_is_one x = true -> 0 < n' -> sim_leb (oF sim o) (combine x 0 n') = true) ->
-  wf_forest DL root -> wf_forest DR root ->
-  (forall k v, In (k, v) lns -> ns_get lns k = Some v) ->
-  (* the domain: equal in the sense of C03/C13, or not equivalent *)
-  same_doc_upto (oignored sim o) DL DR \/ ~ doc_equiv (oignored sim o) DL root DR root ->
-  diff_model sim sim_ltb sim_leb sim_is_one zero one leaf_sim combine o DL DR root root lns lns
-    = Some (script, W) ->
-  render_script pe root DL script = Some gs ->
-  (call_class d = Some s_DiffFormatter -> format tables gs = Ok (api d)) ->
-  (call_class d = Some s_XmlDiffFormatter -> old_format pe DL root nsm gs = OOk (api d)) ->
-  exists res,
-    diff_command_run flags cli api argv = Some res /\
-    cr_stdout res = api c1 ++ [10%N] /\
-    (cr_status res = Some 1%Z <-> ~ doc_equiv (oignored sim o) DL root DR root) /\
-    (cr_status res = None <-> doc_equiv (oignored sim o) DL root DR root).
-Proof.
-  intros sim sim_ltb sim_leb sim_is_one zero one leaf_sim combine api argv ns c1 c2 Hp Hplan d
-         o DL DR root lns pe nsm script W gs HF H1.
-  exact (check_status_iff sim sim_ltb sim_leb sim_is_one zero one leaf_sim combine api argv ns c1 c2 Hp Hplan
-           o DL DR root lns pe nsm script W gs (conj HF H1)).
-Qed.
-Print Assumptions C15_check_iff.
-
-(* Non-vacuity: xmldiff --check a b, documents <r><a k="1"/></r> and <r><a k="2"/></r>
-   (they differ: UpdateAttrib), then the first against itself.  The parser accepts
-   the argv, the plan is a single DiffFormatter call with --check, the DiffFormatter
-   link holds by computation for api := the formatted text, and the model run
-   prints the text and exits with 1, resp. prints the empty line and exits with 0. *)
-Example C15_check_docs_example :
-  let argv := [L "--check"%string; L "a"%string; L "b"%string] in
-  let mk := fun v => mk_forest [(0, [1])]
-              [(0, Lab (TElem [114%N]) [] None None);
-               (1, Lab (TElem [97%N]) [([107%N], [v])] None None)] 2 in
-  let leaf := fun a b : str => if str_eqb a b then 100 else 60 in
-  let comb := fun m c n : nat => if Nat.ltb 0 n && Nat.eqb c n then m else m * 70 / 100 in
-  let is_one := fun x => Nat.eqb x 100 in
-  let o := MOpts nat 50 [] false false [] in
-  let pe : penv := fun _ => None in
-  let text_of := fun DR =>
-    match diff_model nat Nat.ltb Nat.leb is_one 0 100 leaf comb o (mk 49%N) DR 0 0 [] [] with
-    | Some (script, _) => match render_script pe 0 (mk 49%N) script with
-                          | Some gs => match format tables gs with Ok t => Some t | Err _ => None end
-                          | None => None
-                          end
-    | None => None
-    end in
-  (exists ns, parse_args (pctx_of flags cli) (ct_diff_opts cli) argv = PArgs ns) /\
-  (exists c1, diff_command_plan flags cli argv = PlanRun c1 true None /\ call_class c1 = Some s_DiffFormatter) /\
-  text_of (mk 50%N) = Some [91;117;112;100;97;116;101;45;97;116;116;114;105;98;117;116;101;44;32;
-                            47;114;47;97;91;49;93;44;32;107;44;32;34;50;34;93]%N /\
-  text_of (mk 49%N) = Some [] /\
-  tree_equivb (doc_tree (mk 49%N) 0) (doc_tree (mk 50%N) 0) = false /\
-  (forall t, text_of (mk 50%N) = Some t ->
-     option_map cr_status (diff_command_run flags cli (fun _ => t) argv) = Some (Some 1%Z)) /\
-  (forall t, text_of (mk 49%N) = Some t ->
-     option_map cr_status (diff_command_run flags cli (fun _ => t) argv) = Some None).
-Proof.
-  cbv zeta.
-  split; [eexists; vm_compute; reflexivity|].
-  split; [eexists; split; vm_compute; reflexivity|].
-  split; [vm_compute; reflexivity|]. split; [vm_compute; reflexivity|]. split; [vm_compute; reflexivity|].
-  split; intros t E; vm_compute in E; injection E as <-; vm_compute; reflexivity.
-Qed.
-Print Assumptions C15_check_docs_example.
